@@ -112,6 +112,18 @@ func genC25(seed uint64, tier string) any {
 		sc.Phases = append(sc.Phases, ph)
 		dir = 1 - dir
 	}
+	if r.Chance(1, 30) {
+		// many small records in one direction: sequence numbers beyond one byte
+		ph := c25Phase{Dir: r.Intn(2)}
+		for k := r.Range(258, 330); k > 0; k-- {
+			ph.Writes = append(ph.Writes, 1+r.Intn(3))
+		}
+		sc.Phases = []c25Phase{ph}
+		sc.Net.Window = 0
+		if sc.Net.LatMaxUs > 200 {
+			sc.Net.LatMinUs, sc.Net.LatMaxUs = 10, 60
+		}
+	}
 	tot := 0
 	for _, ph := range sc.Phases {
 		for _, w := range ph.Writes {
